@@ -742,6 +742,9 @@ class ConcurrentVector {
     if (curSize < n) {
       return grow_by(n - curSize);
     }
+    if (n == 0) {
+      return begin(); // there is no element n - 1: do not index with size_type(-1)
+    }
     return {this, n - 1, bucketAndSubIndex(n - 1)};
   }
 
@@ -756,6 +759,9 @@ class ConcurrentVector {
     size_t curSize = size_.load(std::memory_order_relaxed);
     if (curSize < n) {
       return grow_by(n - curSize, t);
+    }
+    if (n == 0) {
+      return begin(); // there is no element n - 1: do not index with size_type(-1)
     }
     return {this, n - 1, bucketAndSubIndex(n - 1)};
   }
